@@ -46,6 +46,17 @@ LINKS = [
     ('cell_type_mapper.type_assignment.election.choose_node', 'tally_votes',
      ['bootstrap_factor', 'bootstrap_iteration', 'rng'], ['C02', 'C03']),
     # query marker selection
+    ('cell_type_mapper.type_assignment.marker_cache_v2.create_marker_gene_lookup_from_ref_list',
+     'create_marker_gene_lookup_from_mapping',
+     ['query_gene_names', 'n_per_utility', 'n_per_utility_override', 'n_processors', 'behemoth_cutoff',
+      'genes_at_a_time', 'drop_level'], ['C12']),
+    ('cell_type_mapper.type_assignment.marker_cache_v2.create_marker_gene_lookup_from_mapping',
+     'create_raw_marker_gene_lookup',
+     ['query_gene_names', 'n_per_utility', 'n_per_utility_override', 'n_processors', 'behemoth_cutoff',
+      'genes_at_a_time'], ['C12']),
+    ('cell_type_mapper.type_assignment.marker_cache_v2.create_raw_marker_gene_lookup', 'select_all_markers',
+     ['query_gene_names', 'n_per_utility', 'n_per_utility_override', 'n_processors', 'behemoth_cutoff',
+      'genes_at_a_time'], ['C12']),
     ('cell_type_mapper.marker_selection.selection_pipeline.select_all_markers', '_marker_selection_worker',
      ['query_gene_names', 'genes_at_a_time', 'taxonomy_tree'], ['C12']),
     ('cell_type_mapper.marker_selection.selection_pipeline._marker_selection_worker', 'select_marker_genes_v2',
